@@ -254,13 +254,15 @@ Definition exit_ok (m : mode) : bool :=
 Definition tab_eqb (a b : tab) : bool := list_eqb (list_eqb val_same) a b.
 Definition otab_eqb (a b : option tab) : bool := option_eqb tab_eqb a b.
 
+Definition wf1 (o : op) (s : st) : Prop :=
+  match o with
+  | SChange p false t => visible (load_fu p s) p = Some t \/ visible (load_fu p s) p = None
+  | SChangeTemp n false t => tvisible s n = Some t \/ tvisible s n = None
+  | _ => True
+  end.
+
 Fixpoint ops_wf (ops : list op) (s : st) : Prop :=
   match ops with
   | [] => True
-  | o :: r =>
-      match o with
-      | SChange p false t => visible (load_fu p s) p = Some t \/ visible (load_fu p s) p = None
-      | SChangeTemp n false t => tvisible s n = Some t \/ tvisible s n = None
-      | _ => True
-      end /\ ops_wf r (exec o s)
+  | o :: r => wf1 o s /\ ops_wf r (exec o s)
   end.
